@@ -1,16 +1,22 @@
 #!/bin/bash
-# neutral.sh: behaviour-preserving refactorings must leave every check silent (exit 0).
+# neutral.sh [patch ...]: behaviour-preserving refactorings must leave every check silent (exit 0).
+# n*.diff are hand-written; r<Area><K>.diff were produced by sub-agents asked for "no functional change" clean-ups
+# (each builds in three configurations and keeps the suite at 79 passed + ui_tests failing as on the baseline; r*.md explain why).
 cd /verif
-rc_all=0
-for p in selftest/neutral/*.diff; do
+patches=("$@"); [ ${#patches[@]} -eq 0 ] && patches=(selftest/neutral/*.diff)
+run_one() {
+  p=$1
   S=$(mktemp -d /tmp/vscratch.XXXXXX)
   rsync -a --exclude target --exclude .git /repo/ "$S/"
-  ( cd "$S" && git init -q . && git add -A >/dev/null 2>&1 && git -c user.email=x@x -c user.name=x commit -qm base >/dev/null 2>&1 && git apply /verif/$p ) || { echo "$p APPLY-FAILED"; rm -rf "$S"; continue; }
-  fired=""
+  ( cd "$S" && git init -q . && git add -A >/dev/null 2>&1 && git -c user.email=x@x -c user.name=x commit -qm base >/dev/null 2>&1 && git apply /verif/$p ) || { echo "$p APPLY-FAILED"; rm -rf "$S"; return; }
+  fired=""; rep=""
   for i in 01 02 03 04 05 06 07 08 09 10 11 12 13 14 15 16 17 18 19 20; do
-    out=$(VERIF_REPO="$S" ./check.sh C$i quick 2>&1) || { fired="$fired C$i"; echo "$out" | grep -E "^(VIOLATION|UNRECOGNISED|FLOOR|MISSING-ANCHOR|ENGINE): " | sed "s/^/      C$i /" | cut -c1-200; }
+    out=$(VERIF_REPO="$S" ./check.sh C$i quick 2>&1) || { fired="$fired C$i"; rep="$rep$(echo "$out" | grep -E "^(VIOLATION|UNRECOGNISED|FLOOR|MISSING-ANCHOR|ENGINE): " | sed "s/^/      C$i /" | cut -c1-200)
+"; }
   done
-  if [ -z "$fired" ]; then echo "$(basename $p): silent"; else echo "$(basename $p): FALSE ALARM in$fired"; rc_all=1; fi
+  if [ -z "$fired" ]; then echo "$(basename $p): silent"; else echo "$(basename $p): FALSE ALARM in$fired"; echo -n "$rep"; fi
   rm -rf "$S"
-done
-exit $rc_all
+}
+export -f run_one
+printf "%s\n" "${patches[@]}" | xargs -P ${NEUTRAL_JOBS:-4} -I{} bash -c 'run_one {}' | tee /tmp/neutral.$$.out
+! grep -q "FALSE ALARM\|APPLY-FAILED" /tmp/neutral.$$.out; rc=$?; rm -f /tmp/neutral.$$.out; exit $rc
